@@ -566,7 +566,7 @@ fn answer_any_fe(f: &spec::Frame) -> Option<(Vec<u8>, usize)> {
 
 /// every Frontend operation that awaits an answer, parameterised by the caller's identity where the reply can carry it
 fn all_fe_ops(t: u32) -> Vec<FeOp> {
-    let reg = crate::feops::Reg { f: [0x10_0000 * (t as u64 + 1), 0x1000, 0x7000_0000_0000 + 0x10_0000 * t as u64, 0], kind: crate::fdtrack::FdKind::Memfd };
+    let reg = crate::feops::Reg { f: [0x10_0000 * (t as u64 + 1), 0x1000, 0x7000_0000_0000 + 0x10_0000 * t as u64, 0], kind: crate::fdtrack::FdKind::Memfd, share: false };
     vec![
         FeOp::SetOwner,
         FeOp::ResetOwner,
